@@ -130,7 +130,7 @@ def cases(rng, tier, shard, nshards):
             yield dict(kind='binary', op=op, x=[x1, x2], h=[draw_h(rng, x1), draw_h(rng, x2)],
                        scalar_other=bool(op.startswith('r') or rng.random() < 0.3))
         elif u < 0.85:
-            pk = ['int', 'real', 'bicomplex', 'rpow'][i % 4]
+            pk = ['int', 'real', 'bicomplex', 'rpow', 'real_intvalued'][i % 5]
             if pk == 'int':
                 x = float(rng.choice([-1, 1]) * rng.uniform(0.3, 4))
                 e = int(rng.choice([-3, -2, -1, 2, 3, 4, 5]))
@@ -138,6 +138,16 @@ def cases(rng, tier, shard, nshards):
                 x, e = float(rng.uniform(0.2, 6)), float(rng.choice([0.5, 1.5, -0.5, 2.5, 0.3333, 2.0, 3.0, rng.uniform(-3, 3)]))
                 if rng.random() < 0.15:
                     x = float(10.0 ** rng.uniform(-30, -14))
+            elif pk == 'real_intvalued':
+                # a float exponent with an integer value goes through exp(e log z) like any real power, but z**e is single-valued:
+                # negative bases are in the domain (also with z2 = 0, where log needs the +-pi of the principal branch)
+                x = float(rng.choice([-1, 1]) * rng.uniform(0.3, 4))
+                e = float(rng.choice([3.0, -1.0, 2.0, 5.0, -2.0, -3.0]))
+                hh = draw_h(rng, x)
+                if rng.random() < 0.4:
+                    hh = [hh[0], 0.0, 0.0]
+                yield dict(kind='pow', pk=pk, x=x, e=e, h=hh, he=[0.0, 0.0, 0.0], np_float=bool(rng.random() < 0.5))
+                continue
             elif pk == 'bicomplex':
                 x, e = float(rng.uniform(0.3, 4)), float(rng.uniform(-2, 2))
             else:
@@ -333,6 +343,8 @@ def run_case(case, ctx):
                     res = e ** bic(x, h)
                 elif pk == 'bicomplex':
                     res = bic(x, h) ** bic(e, he)
+                elif pk == 'real_intvalued':
+                    res = bic(x, h) ** (np.float64(e) if case.get('np_float') else float(e))
                 else:
                     res = bic(x, h) ** e
         except Exception as exc:
@@ -352,7 +364,7 @@ def run_case(case, ctx):
             Z1, Z2 = from_idem(fn(a, ae), fn(b, be))
             cond = numcond(fn, [a, ae]) + numcond(fn, [b, be])
         else:
-            if pk == 'int':
+            if pk in ('int', 'real_intvalued'):
                 fn = lambda p: p ** int(e)
             else:
                 fn = lambda p: m.power(p, m.mpf(e))
